@@ -75,6 +75,8 @@ def fp_term(v, exact_only=False):
             raise Unsupported("int %d not exactly representable in binary64" % v)
         return fp_const(f)
     if isinstance(v, SInt):
+        if getattr(v, "fpsrc", None) is not None:
+            return v.fpsrc
         if v.bv is not None and v.bv.size() <= 53:
             return z3.fpUnsignedToFP(RNE, v.bv, FP64)
         if exact_only:
@@ -870,15 +872,27 @@ def getitem(ctx, obj, idx):
         if isinstance(obj, (list, tuple, str)):
             n = len(obj)
             it = int_term(idx)
-            if ctx.branch(z3.Or(it >= n, it < -n)):
+            memo = ctx.__dict__.setdefault("_index_memo", {})
+            known = memo.get((it.get_id(), n))
+            if known is not None:
+                return obj[known]       # this path already fixed the position of this index term
+            src0 = getattr(idx, "fpsrc", None) if isinstance(idx, SInt) else None
+            oob = z3.Or(it >= n, it < -n) if src0 is None else \
+                z3.Or(z3.fpGEQ(src0, fp_const(float(n))), z3.fpLT(src0, fp_const(float(-n))))
+            if ctx.branch(oob):
                 raise SymRaise(IndexError("%s index out of range" % type(obj).__name__))
             # fork over the admissible concrete positions
+            src = getattr(idx, "fpsrc", None) if isinstance(idx, SInt) else None
             for j in range(n):
                 last = (j == n - 1)
-                cond = z3.Or(it == j, it == j - n)
+                if src is not None:
+                    cond = z3.Or(z3.fpEQ(src, fp_const(float(j))), z3.fpEQ(src, fp_const(float(j - n))))
+                else:
+                    cond = z3.Or(it == j, it == j - n)
                 if last or ctx.branch(cond):
                     if last:
                         ctx.assume(cond)
+                    memo[(it.get_id(), n)] = j
                     return obj[j]
         raise Unsupported("symbolic index into %s" % type(obj).__name__)
     if isinstance(obj, dict) and (contains_sym(idx) or _has_symentries(ctx, obj)):
